@@ -153,6 +153,22 @@ def run(ctx):
               "by rank exactly when sort_by_rank is set" % (sorted(uw.get("cmp_loom_rank", ())), sorted(uw.get("cmp_loom_id", ()))))
     ctx.check("loom_sort" in {n.get("callee") for n in sl.nodes if n["k"] == "CallExpr"}, "R15.3",
               "sort_lpt:sorts-each-loom", sl.loc(), "sort_lpt does not sort the contents of each loom")
+    # ... whatever it holds (a loom with one process still has CPUs and threads to sort): in sort_lpt's flow graph the
+    # call of loom_sort lies on every iteration of the loop that contains it - the loop without the call's block has no
+    # cycle left, so no guard can skip it for some looms
+    calls_ls = [i for i in sl.calls("loom_sort")]
+    ctx.need(len(calls_ls) == 1, "sort_lpt: %d calls of loom_sort" % len(calls_ls))
+    blk = sl.where_up(calls_ls[0])[0]
+    fwd = sl.reachable_blocks(start=blk) - {blk} if blk in sl.succs(blk) else sl.reachable_blocks(start=blk)
+    loop = {x for x in sl.reachable_blocks(start=blk) if blk in sl.reachable_blocks(start=x) and x != blk
+            and any(blk in sl.reachable_blocks(start=y) for y in sl.succs(x))}
+    in_loop = blk in {y for x in sl.reachable_blocks(start=blk) for y in sl.succs(x)}
+    ctx.need(in_loop, "sort_lpt: loom_sort is not called inside a loop over the looms")
+    rest = {x for x in sl.blocks if x != blk and x in sl.reachable_blocks(start=blk) and blk in sl.reachable_blocks(start=x)}
+    cyc = [x for x in rest if any(x in sl.reachable_blocks(start=y, avoid=(blk,)) for y in sl.succs(x) if y in rest)]
+    ctx.check(not cyc, "R15.3", "sort_lpt:sorts-every-loom", sl.loc(calls_ls[0]),
+              "an iteration of the loop over the looms can skip loom_sort (blocks %s form a cycle without it): the CPUs and "
+              "threads of a skipped loom keep the order in which the streams were enumerated" % sorted(cyc))
     ssc = prog.fn("set_sort_criteria", SYSC)
     for (ranks, want) in (((1, 1), 1), ((1, 0), 0), ((0, 0), 0), ((1,), 1), ((0,), 0)):
         ex = absint.Explorer(prog, effects=eff, loop_bound=4,
